@@ -11,6 +11,8 @@ sys.path.insert(0, HERE)
 
 NOT_BUILT = "check not built yet in this session (planned in DESIGN.md; not a limit of the technique)"
 NA_REASONS = {}
+# only checks that have been run quiet at 5 seeds and against their mutants are registered
+READY = {"C01", "C02", "C05", "C06", "C19"}
 
 props = [json.loads(l) for l in open(os.path.join(HERE, "properties.jsonl"))]
 checks = []
@@ -19,7 +21,7 @@ served = []
 for p in props:
     pid = p["id"]
     path = os.path.join(HERE, "vlib", "props", pid.lower() + ".py")
-    if not os.path.exists(path) or pid in NA_REASONS:
+    if not os.path.exists(path) or pid in NA_REASONS or pid not in READY:
         na.append({"property_id": pid, "reason": NA_REASONS.get(pid, NOT_BUILT)})
         continue
     src = open(path).read()
